@@ -99,7 +99,8 @@ def replay_mutants(pid, repo):
     """thorough tier: seeded mutants must be reported, benign refactors must stay silent"""
     res = {'seeded': [], 'benign': []}
     jobs = []
-    for kind, d in (('seeded', os.path.join(MUTANT_DIR, pid)), ('benign', os.path.join(MUTANT_DIR, 'benign', pid))):
+    for kind, d in (('seeded', os.path.join(MUTANT_DIR, pid)), ('benign', os.path.join(MUTANT_DIR, 'benign', pid)),
+                    ('benign', os.path.join(MUTANT_DIR, 'benign', 'ALL'))):
         if os.path.isdir(d):
             for fn in sorted(os.listdir(d)):
                 if fn.endswith('.patch') or fn.endswith('.diff'):
